@@ -398,13 +398,17 @@ fn one(rep: &mut Report, gate: &std::sync::Arc<Gate>, b: &Value, idx: usize) {
                     gate.release("", "notify-after-subscribe");
                     gate.wait_parked("", "notify-after-check", Duration::from_secs(5));
                 }
+                // The handler has made its check.  It stays parked right behind it, in front of the wait, while the
+                // other threads take the steps the schedule puts here: a handler that had subscribed before the
+                // check loses nothing by that, one that subscribes only now would miss the notification.
+                gate.disarm("", "notify-after-subscribe");
+            }
+            "n_wake" => {
                 if gate.is_parked("", "notify-after-check") {
                     gate.release("", "notify-after-check");
                 }
-                gate.disarm("", "notify-after-subscribe");
                 gate.disarm("", "notify-after-check");
             }
-            "n_wake" => {}
             x => { fidelity = Some(format!("unknown step {x}")); break 'steps }
         }
     }
